@@ -44,6 +44,9 @@ REGRESSION = [
     ('remove_column on a loop without rows',
      'empty;addblock %s -1;initloop 0 %s %s 0;loop 0 %s rmcol %s' % (
          F.hx('b'), F.hx('_a.'), F.lst(['x', 'y', 'z']), F.hx('_a.x'), F.hx('_a.y'))),
+    # Loop::length() divided by tags.size() == 0
+    ('Table::move_row on the tag-less loop made by find_or_add with an empty tag list',
+     'empty;addblock %s -1;table 0 oradd %s 0 moverow 1 -2' % (F.hx('b'), F.hx('_b.'))),
     ('Column::erase on a loop without rows',
      'empty;addblock %s -1;initloop 0 %s %s 0;colerase 0 %s' % (
          F.hx('b'), F.hx('_a.'), F.lst(['x', 'y', 'z']), F.hx('_a.z'))),
